@@ -72,7 +72,24 @@ def usage? (total used : String) : Option Usage := do
 
 def fileOf (s : Snap) : File := { size := s.size, mtime := s.mtime, persist := s.persist, lat := s.lat }
 
-def fsMonitors (s : St) (next : List Snap) : List String :=
+/-- the pass a `job` record stands for, by the documented configuration rules (TTI default 6 h, aggressive
+TTL default 1 h; usage-driven policy above the aggressive threshold when a lower threshold is set) -/
+def jobAsPass (args : List String) : List String :=
+  match args with
+  | ["job", _, tti, ttl, athr, attl, lower, util, total, used] =>
+    match tti.toInt?, athr.toNat?, attl.toInt?, lower.toNat?, util.toNat? with
+    | some ttiV, some athrV, some attlV, some lowerV, some utilV =>
+      let ttiE := if ttiV = 0 then toString (6 * 3600 * sec) else tti
+      let attlE := if attlV = 0 then toString (3600 * sec) else attl
+      let aggro := athrV ≠ 0 ∧ utilV ≥ athrV
+      if aggro ∧ lowerV ≠ 0 then ["cleanuppolicy", lower, total, used]
+      else if aggro then ["cleanupttl", ttiE, attlE, "0", total, used]
+      else ["cleanupttl", ttiE, ttl, "0", total, used]
+    | _, _, _, _, _ => args
+  | _ => args
+
+def fsMonitors (s0 : St) (next : List Snap) : List String :=
+  let s := { s0 with lastOp := jobAsPass s0.lastOp }
   let gone := s.prev.filter (fun p => !(next.any (·.name == p.name)))
   let pf1 := (gone.filter (fun p => p.persist == some true)).map fun p =>
     s!"side=impl key=persisted-file-removed {p.name} was marked persist=true and is gone after {sp s.lastOp}"
@@ -198,6 +215,20 @@ def step (s : St) (kind : String) (args impl : List String) : Option (St × Step
     let (m, usage) := cleanupPolicy s.m pct u
     let n := s.m.files.length - m.files.length
     fin m [toString usage] (s!"cleanuppolicy.{if n = 0 then "none" else "deleted"}")
+  | ["job", interval, tti, ttl, athr, attl, lower, util, total, used] => do
+    let interval ← nat? interval
+    let tti ← int? tti
+    let ttl ← int? ttl
+    let athr ← nat? athr
+    let attl ← int? attl
+    let lower ← nat? lower
+    let util ← nat? util
+    let u ← usage? total used
+    let c : JobCfg := { tti, ttl, aggrThr := athr, aggrTTL := attl, lower }
+    let (m, _) := jobCleanup { s.m with now := s.m.now + interval } c util u
+    let mode := if (athr ≠ 0 ∧ util ≥ athr) ∧ lower ≠ 0 then "policy" else if athr ≠ 0 ∧ util ≥ athr then "aggro-ttl" else "normal"
+    let n := s.m.files.length - m.files.length
+    fin m ["ran"] (s!"job.{mode}.{if n = 0 then "none" else "deleted"}") (s.clock + interval)
   | ["fs"] =>
     let mine := (listNames s.m).filterMap fun n => (KV.get s.m.files n).map (snapTok n)
     match (impl.head?.map list?).getD [] |>.mapM snap? with
@@ -226,18 +257,25 @@ def step (s : St) (kind : String) (args impl : List String) : Option (St × Step
   if kind ≠ "one" then none else
   match args with
   | "maybedelete" :: rest => do
-    let expired ← (kv? rest "expired").bind bool?
+    -- `age` = (now − ModTime) − ttl in ns: expired iff positive (strict >); `expired=` is accepted for old replays
+    let expired ← match (kv? rest "age").bind int? with
+      | some a => some (decide (a > 0))
+      | none => (kv? rest "expired").bind bool?
     let owns ← (kv? rest "owns").bind bool?
     let persist ← (kv? rest "persist").bind fun p =>
       if p = "-" then some none else (bool? p).map some
     let tasks ← (kv? rest "tasks").bind fun t => (list? t).mapM bool?
-    let inp : Input := { expired, owns, persist, tasks }
+    let findFails := (kv? rest "finderr") = some "1"
+    let inp : Input := { expired, owns, persist, tasks, findFails }
     let out := maybeDelete inp
-    let obs := [outTok out.result, s!"executed={out.executed}", s!"present={boolTok (!out.deleted)}"]
+    -- a second, fresh and owned blob is never a candidate
+    let obs := [outTok out.result, s!"executed={out.executed}", s!"present={boolTok (!out.deleted)}", "other=1"]
     -- predicate on the implementation's answer
     let pf : List String :=
       match impl with
-      | [_, ex, pr] =>
+      | [_, ex, pr, oth] =>
+        if oth = "other=0" then [s!"side=impl key=deleted-not-candidate a fresh blob owned by this origin was deleted by the forced cleanup"] else
+        if findFails ∧ pr = "present=0" ∧ persist = some true then [s!"side=impl key=deleted-before-writeback the persisted blob was deleted although the write-back tasks could not be looked up"] else
         let gone := pr = "present=0"
         let executed := ((kv? [ex] "executed").bind nat?).getD 0
         if gone ∧ persist = some true ∧ (executed < tasks.length ∨ tasks.any (· == false)) then
